@@ -45,12 +45,18 @@ def slices(ctx):
         s["setops-depth3"] = (dict(MINI, Boxes=[B_OVER, B_ADJ], MinBoxes=2, MaxBoxes=2, MaxOps=3, Chained=True, PolyOps=["setop"], DevOps=[]), True)
         s["devices-depth3"] = (dict(MINI, Origins=[(0, 0), (1, -1)], Boxes=[B_BIG, B_IN], MinBoxes=2, MaxBoxes=2, MaxOps=3, Chained=True, PolyOps=["translate", "poke"], DevOps=pa.DEV_OPS), True)
     else:
+        # thorough: full enumeration with VIEW for the clauses; the exported (replayed) part of the depth-3 slices is the
+        # chained sub-family (every operation involves the previous result) to keep the replay inside the time budget
         s["poly-depth2"] = (dict(FULL, Boxes=[B_OVER, B_ADJ, B_BIG], MaxBoxes=2, MaxOps=2, PolyOps=pa.POLY_OPS, DevOps=[]), True)
-        s["setops-depth3"] = (dict(MINI, Boxes=[B_OVER, B_ADJ, B_BIG], MaxBoxes=2, MaxOps=3, PolyOps=["setop"], DevOps=[]), True)
-        s["setops-depth3-3boxes"] = (dict(MINI, Boxes=[B_OVER, B_ADJ, B_BIG], MaxBoxes=3, MaxOps=3, PolyOps=["setop"], DevOps=[]), False)
-        s["devices-depth3"] = (dict(MINI, Origins=[(0, 0), (1, -1)], Boxes=[B_BIG, B_IN, B_OUT], MaxBoxes=3, MaxOps=3, PolyOps=["translate", "poke"], DevOps=pa.DEV_OPS), True)
-        s["poly-depth3"] = (dict(MINI, Boxes=[B_OVER, B_ADJ], MaxBoxes=2, MaxOps=3, PolyOps=pa.POLY_OPS, DevOps=[]), True)
-        s["setops-all-boxes"] = (dict(FULL, Boxes=pa.all_boxes(3), MaxBoxes=2, MaxOps=1, PolyOps=["setop"], DevOps=[]), False)
+        s["setops-depth3"] = (dict(MINI, Boxes=[B_OVER, B_ADJ, B_BIG], MaxBoxes=3, MaxOps=3, PolyOps=["setop"], DevOps=[]), False)
+        s["setops-depth3-chained"] = (dict(MINI, Boxes=[B_OVER, B_ADJ, B_BIG], MaxBoxes=2, MaxOps=3, Chained=True, PolyOps=["setop"], DevOps=[]), True)
+        dev3 = dict(MINI, Origins=[(0, 0), (1, -1)], Boxes=[B_BIG, B_IN, B_OUT], MaxBoxes=3, MaxOps=3, PolyOps=["translate", "poke"], DevOps=pa.DEV_OPS)
+        s["devices-depth3"] = (dev3, False)
+        s["devices-depth3-chained"] = (dict(dev3, Chained=True), True)
+        pd3 = dict(MINI, Boxes=[B_OVER, B_ADJ], MaxBoxes=2, MaxOps=3, PolyOps=pa.POLY_OPS, DevOps=[])
+        s["poly-depth3"] = (pd3, False)
+        s["poly-depth3-chained"] = (dict(pd3, Chained=True), True)
+        s["setops-5x5-boxes"] = (dict(FULL, Boxes=pa.all_boxes(3, -2, 3), MaxBoxes=2, MaxOps=1, PolyOps=["setop"], DevOps=[]), False)
     return s
 
 
@@ -70,7 +76,7 @@ def random_slices(ctx, n):
     for k in range(n):
         ops = rnd.sample(pa.POLY_OPS, 3)
         dev = rnd.random() < 0.4
-        b = dict(H=3, Boxes=rnd.sample(boxes, 2), MaxBoxes=2, MaxOps=2 if ctx.quick else 3, Quarters=[rnd.choice([1, 2, 3])],
+        b = dict(H=3, Boxes=rnd.sample(boxes, 2), MaxBoxes=2, MaxOps=2 if ctx.quick else 3, Chained=not ctx.quick, Quarters=[rnd.choice([1, 2, 3])],
                  Shifts=[rnd.choice([(1, 0), (0, 1), (-1, -1), (2, -1), (0, -2)])],
                  Factors=[rnd.choice([(-1, 1), (1, -1), (-1, -1), (2, 1), (1, 2), (-2, 1), (2, -2), (-1, 2)])],
                  Origins=[rnd.choice([(0, 0), (1, 1), (-1, 0), (0, 2)])], MaxHoles=1,
@@ -117,7 +123,7 @@ def run(ctx):
     ctx.cov["exhaustive"] = True
     exported = [(n, cs) for n, cs in done if cs is not None]
     rnd = random.Random(ctx.seed)
-    cap = 2000 if ctx.quick else 40000
+    cap = 2000 if ctx.quick else 20000
     chains, origin = [], []
     ctx.cov["behaviours_exported"] = {}
     for name, cs in exported:
@@ -130,9 +136,12 @@ def run(ctx):
         origin += [name] * len(cs)
     ctx.cov.setdefault("exhaustive_replay", True)
     variants = [rnd.randrange(10 ** 6) for _ in chains]
-    per = 250
-    jobs = [("call", dict(module="harness.polyalg", func="replay_chains",
-                          args=dict(chains=chains[k:k + per], variants=variants[k:k + per], H=3)))
+    per = 1500 if ctx.quick else 3000
+    tdir = ctx.tmp / "traces"
+    tdir.mkdir(exist_ok=True)
+    jobs = [("call", dict(module="harness.polyalg", func="replay_chains_to_file",
+                          args=dict(chains=[[st["o"] for st in c] for c in chains[k:k + per]], variants=variants[k:k + per], H=3,
+                                    first=k, out=str(tdir / f"chains_{k}.json"))))
             for k in range(0, len(chains), per)]
     nrel = 150 if ctx.quick else 3000
     jobs += [("call", dict(module="harness.polyalg", func="relation_trace", args=dict(seed=ctx.seed * 100003 + k, transforms=3)))
@@ -140,21 +149,29 @@ def run(ctx):
     ph['prepare'] = round(time.time() - T0, 1)
     res = rf.replay_all(ctx, jobs)
     ph['replay'] = round(time.time() - T0, 1)
-    traces = []
-    for r in res:
-        traces += r if isinstance(r, list) else [r]
-    chain_tr = [t for t in traces if t["kind"] == "chain"]
-    rel_tr = [t for t in traces if t["kind"] == "rel"]
+    files = [r for r in res if r["kind"] == "chainfile"]
+    rel_tr = [r for r in res if r["kind"] == "rel"]
+    meta = [None] * len(chains)
+    for f in files:
+        for n, m in enumerate(f["meta"]):
+            meta[f["first"] + n] = m
 
     # ---- 3. code -> spec: TLC validates every recorded execution
-    acc_c = validate(ctx, chain_tr, "chains")
-    acc_r = validate(ctx, rel_tr, "relations")
+    tdgl = core.import_tdgl()
+
+    def full_trace(n):      # re-record one execution in this process (deterministic given chain and variant)
+        return pa.replay_chain(tdgl, chains[n], 3, variants[n])
+
+    acc_c = validate_files(ctx, files, len(chains), full_trace)
+    relfile = tdir / "relations.json"
+    relfile.write_text(json.dumps([pa.strip_trace(t) for t in rel_tr]))
+    acc_r = validate_files(ctx, [{"file": str(relfile), "first": 0, "meta": rel_tr}], len(rel_tr), lambda n: rel_tr[n], what="relations")
     ph['validate'] = round(time.time() - T0, 1)
     opcount = collections.Counter()
-    for n, t in enumerate(chain_tr):
-        ctx.note_case(t["key"] + "|" + "/".join(t["forms"]), len(t["ev"]) > 1)
-        for e in t["ev"]:
-            opcount[(e["op"], e["kind"], e["inplace"], e["out"])] += 1
+    for m in meta:
+        ctx.note_case(m["key"] + "|" + "/".join(m["forms"]), m["n"] > 1)
+        for e in m["ops"]:
+            opcount[tuple(e)] += 1
     for t in rel_tr:
         ctx.note_case(t["key"], True)
     ctx.cov["operations_executed"] = {"%s%s%s -> %s" % (k[0], ":" + k[1] if k[1] else "", " inplace" if k[2] else "", k[3]): v
@@ -169,10 +186,18 @@ def run(ctx):
                 raise core.MachineryFailure(f"C18: {kind} never observed with outcome {out}")
     ctx.cov["relation_setops_validated"] = sum(t["nset"] for t in rel_tr)
     for n in sorted(acc_c)[:2]:
-        t = chain_tr[n]
+        t = full_trace(n)
         ctx.sample({"chain": t["key"], "forms": t["forms"], "last_event": {k: t["ev"][-1][k] for k in ("op", "out", "res", "objs", "devs")}})
     for n in sorted(acc_r)[:2]:
         ctx.sample({"relations": rel_tr[n]["key"], "events": rel_tr[n]["ev"][:6]})
+    # a sample of accepted executions, re-recorded here, carries the canaries
+    pick = sorted(acc_c)
+    random.Random(ctx.seed + 5).shuffle(pick)
+    # prefer long chains with devices / set operation errors so that every canary finds a carrier
+    pick = ([n for n in pick if any(e[0] == "mkdev" for e in meta[n]["ops"])][:60]
+            + [n for n in pick if any(e[0] == "setop" and e[3] == "ValueError" for e in meta[n]["ops"])][:60] + pick[:200])
+    chain_tr = [full_trace(n) for n in pick]
+    acc_c = set(range(len(chain_tr)))
 
     # ---- canaries of the binding: corrupted traces must be rejected
     try:
@@ -194,38 +219,21 @@ def run(ctx):
     ctx.assume("trusted: TLC, shapely/matplotlib as used by the abstraction (contains_points, area, bounds), numpy.shares_memory")
 
 
-def validate(ctx, traces, what):
-    """Parallel batch validation; every rejected trace becomes a violation (the first few are diagnosed)."""
-    if not traces:
+def validate_files(ctx, files, total, full_trace, what="chains"):
+    """Parallel batch validation of trace files (one TLC run per file); every rejected trace becomes a violation
+    (the first few are re-recorded and diagnosed).  Returns the accepted indices."""
+    if not total:
         return set()
     cfg = pa.trace_cfg(3)
-    chunk = max(300, min(4000, len(traces) // 6 + 1))
-    parts = [(k, traces[k:k + chunk]) for k in range(0, len(traces), chunk)]
-    accepted = parallel_validate(ctx, parts, cfg, what)
-    ctx.cov["traces_validated_against_impl"] += len(accepted)
-    rejected = [n for n in range(len(traces)) if n not in accepted]
-    ctx.cov[f"rejected_{what}"] = len(rejected)
-    for n in rejected[:4]:
-        report(ctx, traces[n], what)
-    if len(rejected) > 4:
-        ctx.cov["further_rejected_traces_not_diagnosed"] = ctx.cov.get("further_rejected_traces_not_diagnosed", 0) + len(rejected) - 4
-    return accepted
 
-
-def parallel_validate(ctx, parts, cfg, what):
-    tdir = ctx.tmp / "traces"
-    tdir.mkdir(exist_ok=True)
-
-    def one(part):
-        k, ts = part
-        tf = tdir / f"{what}_{k}.json"
-        tf.write_text(json.dumps([pa.strip_trace(t) for t in ts]))
-        r = core.run_tlc("PolyAlgTrace", cfg, ctx.tmp / f"tlc_{what}_{k}", workers=1, env={"TRACE_FILE": str(tf)}, heap="2g",
-                         java_opts=("-XX:TieredStopAtLevel=1", "-XX:ParallelGCThreads=2"))
-        return k, len(ts), r
+    def one(f):
+        r = core.run_tlc("PolyAlgTrace", cfg, ctx.tmp / f"tlc_{what}_{f['first']}", workers=1, env={"TRACE_FILE": f["file"]},
+                         heap="2g", java_opts=("-XX:TieredStopAtLevel=1", "-XX:ParallelGCThreads=2"))
+        return f, r
 
     accepted = set()
-    for k, n, r in _pmap(one, parts, 8):
+    for f, r in _pmap(one, files, 8):
+        k, n = f["first"], len(f["meta"])
         ctx.cov["models"].append({"model": f"PolyAlgTrace[{what} {k}..{k + n - 1}] (trace validation)", "traces": n,
                                   "distinct_states": r.distinct, "states_generated": r.generated, "wall_s": round(r.wall, 2),
                                   "violated": r.violated})
@@ -240,6 +248,13 @@ def parallel_validate(ctx, parts, cfg, what):
             m = re.match(r'<<"ACCEPT", (\d+)>>', line)
             if m:
                 accepted.add(k + int(m.group(1)) - 1)
+    ctx.cov["traces_validated_against_impl"] += len(accepted)
+    rejected = [n for n in range(total) if n not in accepted]
+    ctx.cov[f"rejected_{what}"] = len(rejected)
+    for n in rejected[:4]:
+        report(ctx, full_trace(n), what)
+    if len(rejected) > 4:
+        ctx.cov["further_rejected_traces_not_diagnosed"] = ctx.cov.get("further_rejected_traces_not_diagnosed", 0) + len(rejected) - 4
     return accepted
 
 
@@ -318,3 +333,25 @@ def trace_canaries(ctx, chain_tr, acc_c, rel_tr, acc_r):
     if acc:
         raise core.MachineryFailure(f"C18: corrupted traces {sorted(acc)} were accepted — the binding is vacuous")
     ctx.cov["canaries_rejected"] += len(bad)
+
+
+def replay(ctx, path):
+    """`./check C18 --replay <file>`: re-execute the recorded chain / relation case on the current tree and re-validate it."""
+    rec = json.load(open(path))
+    t = rec.get("trace")
+    if not t:
+        print(f"replay file {path} records a model-level counterexample:\n{rec.get('counterexample', rec.get('tlc', ''))[:3000]}")
+        return 1
+    tdgl = core.import_tdgl()
+    if t["kind"] == "chain":
+        new = pa.replay_chain(tdgl, [{"o": o} for o in t["ops"]], 3, t["variant"])
+    else:
+        new = pa.relation_trace(tdgl, dict(seed=t["seed"], transforms=t.get("transforms", 3)), None)
+    acc, r = ctx.validate_traces("PolyAlgTrace", [pa.strip_trace(new)], pa.trace_cfg(3), name="replay")
+    if acc:
+        print(f"replay: the recorded input is now accepted (property {ctx.pid} holds on it)")
+        return 0
+    report(ctx, new, "replay")
+    for v in ctx.violations:
+        print(f"VIOLATION property={ctx.pid} replay={v['replay']}\n  what: {v['what']}")
+    return 1
